@@ -30,6 +30,8 @@ IDENTITY_CALLS = (
 CMP_CALLS = {
     'lt': 'Lt', 'le': 'Le', 'gt': 'Gt', 'ge': 'Ge', 'eq': 'Eq', 'ne': 'Ne',
 }
+SLICE_ITER_ALIASES = ('core::slice::iter::into_iter', "<&* alloc::vec::Vec as core::iter::traits::collect::IntoIterator>::into_iter",
+                      '<&alloc::vec::Vec as core::iter::traits::collect::IntoIterator>::into_iter')
 PRIM_OPS = {'add': 'Add', 'sub': 'Sub', 'mul': 'Mul', 'div': 'Div', 'rem': 'Rem', 'bitxor': 'BitXor', 'bitand': 'BitAnd', 'bitor': 'BitOr'}
 MINMAX = {
     'core::cmp::min': 'min', 'core::cmp::max': 'max', 'core::cmp::Ord::min': 'min', 'core::cmp::Ord::max': 'max',
@@ -231,6 +233,8 @@ class Ex:
         gshort = norm(c['fn'])
         if (_glob(short, IDENTITY_CALLS) or _glob(gshort, IDENTITY_CALLS)) and len(args) == 1:
             return args[0]
+        if len(args) == 1 and _glob(short, SLICE_ITER_ALIASES):
+            return ('call', 'core::slice::iter', tuple(args))
         last = gshort.rsplit('::', 1)[-1]
         if last in CMP_CALLS and len(args) == 2 and (
                 gshort.startswith('core::cmp::PartialOrd::') or gshort.startswith('core::cmp::PartialEq::')):
